@@ -41,26 +41,28 @@ CONSTANTS
 FILE == 0
 None == 0
 
-KindSet == { "block", "group", "array", "tag", "mtag", "feature", "source", "section", "property" }
-ListNames == { "data_arrays", "tags", "multi_tags", "references", "sources" }
+KindSet == { "block", "group", "array", "frame", "tag", "mtag", "feature", "source", "section", "property" }
+ListNames == { "data_arrays", "data_frames", "tags", "multi_tags", "references", "sources" }
 RoleNames == { "metadata", "positions", "extents", "data" }
 
-ListsOf(k) == CASE k = "group" -> { "data_arrays", "tags", "multi_tags", "sources" }
+ListsOf(k) == CASE k = "group" -> { "data_arrays", "data_frames", "tags", "multi_tags", "sources" }
                 [] k = "array" -> { "sources" }
                 [] k = "tag"   -> { "references", "sources" }
                 [] k = "mtag"  -> { "references", "sources" }
                 [] OTHER       -> {}
 \* which kind a list holds
-ListKind(l) == CASE l = "data_arrays" -> "array" [] l = "tags" -> "tag" [] l = "multi_tags" -> "mtag"
+ListKind(l) == CASE l = "data_arrays" -> "array" [] l = "data_frames" -> "frame" [] l = "tags" -> "tag" [] l = "multi_tags" -> "mtag"
                  [] l = "references" -> "array" [] l = "sources" -> "source"
-RolesOf(k) == CASE k \in { "block", "group", "array", "tag", "source" } -> { "metadata" }
+RolesOf(k) == CASE k \in { "block", "group", "array", "frame", "tag", "source" } -> { "metadata" }
                 [] k = "mtag"    -> { "metadata", "positions", "extents" }
                 [] k = "feature" -> { "data" }
                 [] OTHER         -> {}
 RoleKind(r) == IF r = "metadata" THEN "section" ELSE "array"
+\* the data of a feature may also be a data frame (not for the link type "tagged" = 1)
+RoleKinds(r) == IF r = "data" THEN { "array", "frame" } ELSE { RoleKind(r) }
 
 OwnerKinds(k) == CASE k = "block" -> { "file" }
-                   [] k \in { "group", "array", "tag", "mtag" } -> { "block" }
+                   [] k \in { "group", "array", "frame", "tag", "mtag" } -> { "block" }
                    [] k = "feature" -> { "tag", "mtag" }
                    [] k = "source"  -> { "block", "source" }
                    [] k = "section" -> { "file", "section" }
@@ -167,9 +169,11 @@ CreateMTagAuto(b, n, t, withExt) ==
 CreateFeature(tg, d, lt) ==
     LET a == [name |-> "CreateFeature", owner |-> tg, data |-> d, t |-> lt, new |-> next, out |-> "ok"] IN
     /\ CanStep
-    /\ Kind(tg) \in { "tag", "mtag" } /\ Kind(d) = "array"
+    /\ Kind(tg) \in { "tag", "mtag" } /\ Kind(d) \in { "array", "frame" }
     /\ IF BlockOf(d) # BlockOf(tg)
          THEN "ForeignBlock" \in Faults /\ Refuse(a, "refused:ForeignBlock")
+         ELSE IF Kind(d) = "frame" /\ lt = 1
+         THEN "BadLinkType" \in Faults /\ Refuse(a, "refused:BadLinkType")      \* a frame cannot be a tagged feature
          ELSE /\ Room("feature")
               /\ AddObj([NewRec("feature", "", tg, lt) EXCEPT !.rl = [EmptyRoles EXCEPT !["data"] = d]])
               /\ Log(a)
@@ -191,7 +195,7 @@ CreateBadName(k, p, why) ==
 
 Create ==
     \/ \E n \in Names, t \in Vals : CreateNamed("block", FILE, n, t)
-    \/ \E b \in objs, k \in { "group", "array", "tag" }, n \in Names, t \in Vals :
+    \/ \E b \in objs, k \in { "group", "array", "frame", "tag" }, n \in Names, t \in Vals :
           Kind(b) = "block" /\ CreateNamed(k, b, n, t)
     \* an array may carry the very name create_multi_tag derives for its helper arrays
     \/ ("mtagauto" \in Ops /\ \E b \in objs, n \in Names, t \in Vals :
@@ -204,7 +208,7 @@ Create ==
     \/ \E s \in objs, n \in Names, v \in Vals : CreateProperty(s, n, v)
 
 CreateFaults ==
-    \E p \in objs \cup {FILE}, k \in { "block", "group", "array", "tag", "mtag", "source", "section", "property" },
+    \E p \in objs \cup {FILE}, k \in { "block", "group", "array", "frame", "tag", "mtag", "source", "section", "property" },
        why \in { "EmptyName", "SlashName", "EmptyType" } :
           /\ ~(k = "property" /\ why = "EmptyType")
           /\ ~(p = FILE /\ why = "EmptyName")      \* File.create_block / create_section generate a name: not a refusal
@@ -302,8 +306,9 @@ SetRole(o, r, x) ==
     /\ Kind(x) \notin { "feature", "property" }
     \* positions / extents of the wrong kind: no property demands a refusal - not generated (left open)
     /\ (r \in { "positions", "extents" }) => Kind(x) = RoleKind(r)
-    /\ IF Kind(x) # RoleKind(r) THEN "WrongKind" \in Faults /\ Refuse(a, "refused:WrongKind")
+    /\ IF Kind(x) \notin RoleKinds(r) THEN "WrongKind" \in Faults /\ Refuse(a, "refused:WrongKind")
        ELSE IF r # "metadata" /\ BlockOf(x) # BlockOf(o) THEN "ForeignBlock" \in Faults /\ Refuse(a, "refused:ForeignBlock")
+       ELSE IF r = "data" /\ Kind(x) = "frame" /\ rec[o].typ = 1 THEN "BadLinkType" \in Faults /\ Refuse(a, "refused:BadLinkType")
        ELSE /\ rec' = [rec EXCEPT ![o] = IF r = "metadata" THEN [@ EXCEPT !.rl[r] = x]
                                                            ELSE Touch([@ EXCEPT !.rl[r] = x])]
             /\ Log(a) /\ UNCHANGED << objs, next, clock, auto, fts >>
@@ -368,7 +373,7 @@ Del == \/ \E o \in objs : Delete(o)
 (* library gives the copy a private duplicate of the target), so copies    *)
 (* are generated only for subtrees that are closed under links.            *)
 (***************************************************************************)
-Copyable == { "block", "array", "tag", "mtag", "section", "property" }
+Copyable == { "block", "array", "frame", "tag", "mtag", "section", "property" }
 Closed(S) == \A x \in S : /\ \A l \in ListNames : \A i \in 1..Len(rec[x].ls[l]) : rec[x].ls[l][i] \in S
                           /\ \A r \in RoleNames : rec[x].rl[r] # None => rec[x].rl[r] \in S
 RankIn(x, S) == Cardinality({ y \in S : y <= x })
@@ -445,7 +450,7 @@ LinkKindAndBlock == \A o \in objs : \A l \in ListNames :
 
 RoleKindOK == \A o \in objs : \A r \in RoleNames :
     (rec[o].rl[r] # None /\ rec[o].rl[r] \in objs) =>
-        /\ r \in RolesOf(Kind(o)) /\ Kind(rec[o].rl[r]) = RoleKind(r)
+        /\ r \in RolesOf(Kind(o)) /\ Kind(rec[o].rl[r]) \in RoleKinds(r)
         /\ r # "metadata" => BlockOf(rec[o].rl[r]) = BlockOf(o)      \* positions, extents, feature data stay in the block
 
 (***************************************************************************)
